@@ -138,8 +138,8 @@ pub fn spec() -> PropSpec {
             "equality: numbers by bit pattern, objects as unordered maps, strings byte-for-byte",
         ],
         checks: vec![
-            PropCheck::new("roundtrip", |_| gen::amf_values(AmfCfg::LIB_ANY, 6).prop_map(|values| Case { values }).boxed(), 20_000, 1_000_000, eval),
-            PropCheck::new("empty-name", |_| with_empty_key(), 1_000, 50_000, eval),
+            PropCheck::new("roundtrip", |_| gen::amf_values(AmfCfg::LIB_ANY, 6).prop_map(|values| Case { values }).boxed(), 200_000, 5_000_000, eval),
+            PropCheck::new("empty-name", |_| with_empty_key(), 5_000, 100_000, eval),
         ],
     }
 }
